@@ -72,7 +72,8 @@ THEOREMS = [
          clause="1D solidification rows: the ice field w_i_k produced by solidStep1D is iceNode1D of the temperature field "
                 "of the same step (node by node)"),
     dict(name="Snow.C07.nucleate1D_ice", strength="full",
-         clause="1D nucleation row: the ice field of nucleate1D/(m_w+m_s) is iceNode1D of the NEW temperature field"),
+         clause="1D nucleation row: the ice field of nucleate1D/(m_w+m_s) is iceNode1D of the NEW temperature field "
+                "(hypotheses SolOK1, 0 < cp_solution, 0 < mass, 0 < Dh)"),
     dict(name="Snow.C07.iceNode1D_range", strength="full",
          clause="1D node formula: 0 <= w_i < m_w/den, ice iff T < T_eq_l, liquidus relation (SolOK1 = relations of calculateDerived)"),
     dict(name="Snow.C07.maxprinciple2D_cool_rows", strength="full",
@@ -93,10 +94,16 @@ THEOREMS = [
     dict(name="Snow.DefaultLink.gen_default_constants", strength="witness",
          clause="the GENERATED calculateDerived evaluated exactly (over Q) on the GENERATED default YAML tree returns "
                 "these constants"),
+    dict(name="Snow.DefaultLink.qDef_eq_generated", strength="witness",
+         clause="every constant of the default SnowIn read by a hypothesis equals calculateDerived(defaultConfig)[k] "
+                "(stated against the generated values; Kshelf = 50 is the default argument of Snowing, not a constant)"),
     dict(name="Snow.DefaultLink.qDef_is_generated_default", strength="witness",
          clause="the default SnowIn of the non-vacuity witnesses equals (field by field, as reals) those constants"),
     dict(name="Snow.DefaultLink.pDef_is_generated_default", strength="witness",
          clause="the 2D default Par equals them too (configuration set to jacket with the YAML's jacket block)"),
+    dict(name="Snow.C07.solid_hyps_pDef", strength="witness",
+         clause="hypotheses of solid_weights_nonneg on the default configuration: lambda_i <= 4 lambda_w and r_2 >= 2 dr "
+                "on the code's radial grid (sign hypotheses of maxprinciple_solid_partial at nodes j >= 2)"),
     dict(name="Snow.C07.hyps_qDef", strength="witness",
          clause="hden/hnum/htheta of bounds0D_run, hv/hfo/hbi of maxprinciple1D_cool_run, SolOK1 and the nucleation "
                 "hypotheses hold for the default SnowIn and its 30-point grid"),
